@@ -35,7 +35,7 @@ RULE = (
 ASSUMPTIONS = [
     "mixture_logistic is not generated here: its initialisation assigns individuals to initial clusters by position (order-dependent by design) and its per-cluster term shapes differ; the locality of its individual sampler decisions is judged by C03.",
     "Replacing the other individuals keeps their ages and missingness pattern (tensor shapes unchanged), so bit-identity is decidable; draws are position-indexed (same seed -> same draw for row i).",
-    "Totals vs sums of per-individual terms and alone-vs-batch comparisons use rtol 1e-5 (summation order); `others` relations are bit-exact (same positions); under a permutation per-individual terms are compared within 64 ulp (vectorised kernels round position-dependently) and scipy_minimize outputs within 2e-2 (the optimiser amplifies rounding; only mis-pairing is judged); initial parameters within one 2^-16 rounding step.",
+    "Totals vs sums of per-individual terms and alone-vs-batch comparisons use rtol 1e-5 (summation order); `others` relations are bit-exact (same positions); under a permutation per-individual terms are compared within 64 ulp (vectorised kernels round position-dependently) and scipy_minimize outputs within 1e-4 once the start-point draws are permuted with the individuals (the harness re-seeds torch per identifier just before each subject's start point is drawn); initial parameters within one 2^-16 rounding step.",
     "Personalised parameters are compared across a permutation only for scipy_minimize (deterministic, per-individual); chain-based algorithms are compared under `others` with positions fixed.",
 ]
 REQUIRED_CLASSES = {"others": 150, "alone": 150, "permute": 150, "permute:non-identity": 100, "others:sampler-step": 100, "others:personalize": 60,
@@ -157,16 +157,31 @@ def individual_step(s, ds, name, seed, std_factor):
     return dec[0], s._values[name]
 
 
-def personalize(m, cohort, algo, seed, n_jobs=1):
+def personalize(m, cohort, algo, seed, n_jobs=1, seed_by_id=None):
+    """`seed_by_id`: harness-side re-seeding of torch just before each subject's start point is drawn, keyed by the subject's
+    (original) identifier - this makes the start-point draws identifier-indexed instead of position-indexed, i.e. it permutes
+    the draws together with the individuals (scipy_minimize, n_jobs=1 only)."""
     import torch
 
     df, data, ds = gen.dataset_from_case(cohort)
+    if seed_by_id is not None:
+        orig_put = m.put_individual_parameters
+
+        def put_with_own_draw(state, dataset):
+            torch.manual_seed(seed_by_id[str(dataset.indices[0])])
+            return orig_put(state, dataset)
+
+        m.put_individual_parameters = put_with_own_draw
     kw = dict(seed=seed, progress_bar=False)
     if algo == "scipy_minimize":
         kw.update(use_jacobian=False, n_jobs=n_jobs)
     else:
         kw.update(n_iter=14)
-    ip = m.personalize(data, algo, **kw)
+    try:
+        ip = m.personalize(data, algo, **kw)
+    finally:
+        if seed_by_id is not None:
+            del m.put_individual_parameters
     return {str(i): {k: torch.as_tensor(v).clone() for k, v in d.items()} for i, d in ip.items()}
 
 
@@ -308,15 +323,17 @@ def body(col: Collector, case):
                     raise Fail(f"permute:{tot}-changes-with-order", float(b), float(a))
         if case["algo"] == "scipy_minimize":
             twin = loaded_twin(mA)
-            pA = personalize(twin, cohort, "scipy_minimize", case["seed"])
-            pP = personalize(twin, cohP, "scipy_minimize", case["seed"])
+            draw_of = {str(old): 1000 + 17 * j for j, old in enumerate(ids)}  # one start-point draw per individual
+            draw_of_P = {str(new_ids[j]): draw_of[str(ids[p])] for j, p in enumerate(perm)}
+            pA = personalize(twin, cohort, "scipy_minimize", case["seed"], seed_by_id=draw_of)
+            pP = personalize(twin, cohP, "scipy_minimize", case["seed"], seed_by_id=draw_of_P)
             if list(pP) != [str(x) for x in new_ids]:
                 raise Fail("permute:personalised-ids-not-in-input-order", list(pP), [str(x) for x in new_ids])
             for j, old in enumerate([ids[p] for p in perm]):
                 a, b = pA[str(old)], pP[str(new_ids[j])]
                 for k in a:
-                    # the optimiser amplifies ulp-level differences of the objective: only gross mis-pairing is judged here
-                    if not torch.allclose(a[k].double(), b[k].double(), rtol=2e-2, atol=2e-2):
+                    # same data, same start point (draws permuted with the individuals), single-individual states: same optimum
+                    if not torch.allclose(a[k].double(), b[k].double(), rtol=1e-4, atol=1e-4):
                         raise Fail("permute:personalised-scipy_minimize-not-permuted", f"{k} = {b[k].tolist()}", f"{k} = {a[k].tolist()}")
     except Fail as f:
         col.fail("relations", f.bucket, case, observed=f.observed, expected=f.expected)
